@@ -103,6 +103,47 @@ macro_rules! to_hash_map {
 to_hash_map!(to_hash_map, Rule, Expr);
 to_hash_map!(to_optimized_hash_map, OptimizedRule, OptimizedExpr);
 
+/// Verification hooks (compiled only with `--cfg pest_parser_pest_verif`): run one optimizer pass at a time.
+#[cfg(pest_parser_pest_verif)]
+#[doc(hidden)]
+pub mod verif {
+    use super::*;
+
+    /// The passes over `ast::Rule`s, in pipeline order, by name.
+    pub const AST_PASSES: [&str; 6] = ["rotate", "skip", "unroll", "concatenate", "factor", "list"];
+
+    /// Applies the named AST pass to every rule.
+    pub fn apply_ast_pass(name: &str, rules: Vec<Rule>) -> Vec<Rule> {
+        let map = to_hash_map(&rules);
+        rules
+            .into_iter()
+            .map(|rule| match name {
+                "rotate" => rotator::rotate(rule),
+                "skip" => skipper::skip(rule, &map),
+                "unroll" => unroller::unroll(rule),
+                "concatenate" => concatenator::concatenate(rule),
+                "factor" => factorizer::factor(rule),
+                "list" => lister::list(rule),
+                _ => panic!("unknown pass {name}"),
+            })
+            .collect()
+    }
+
+    /// Plain conversion of rules into optimized rules (no rewriting).
+    pub fn convert(rules: Vec<Rule>) -> Vec<OptimizedRule> {
+        rules.into_iter().map(rule_to_optimized_rule).collect()
+    }
+
+    /// The final pass over optimized rules.
+    pub fn apply_restore_on_err(rules: Vec<OptimizedRule>) -> Vec<OptimizedRule> {
+        let map = to_optimized_hash_map(&rules);
+        rules
+            .into_iter()
+            .map(|rule| restorer::restore_on_err(rule, &map))
+            .collect()
+    }
+}
+
 /// The optimized version of the pest AST's `Rule`.
 #[derive(Clone, Debug, Eq, PartialEq)]
 pub struct OptimizedRule {
